@@ -125,6 +125,9 @@ class FieldArrayModel(FieldCompositeModel):
                 self.width,
                 self.is_signed,
                 self.is_declared_rand))
+        # An element created while a call is in progress (a random-size 
+        # list being extended) takes part in it as the list does
+        ret.set_used_rand(self.is_used_rand, 1)
         # Update the size
         self._set_size(len(self.field_l))
         return ret
